@@ -36,10 +36,13 @@ func makeAdditionalAnyJSONObjects(r schema.RuleASTNode) AdditionalPropertiesAnyJ
 		s = AdditionalPropertiesAnyJsonItem{
 			Type: internal.StringRef(r.Value),
 		}
-	case internal.StringFloat:
+	case internal.StringFloat, string(schema.SchemaTypeDecimal):
 		s = AdditionalPropertiesAnyJsonItem{
 			Type: internal.StringRef(internal.StringNumber),
 		}
+	case internal.StringAny, internal.StringEnum, string(schema.SchemaTypeMixed), string(schema.SchemaTypeComment):
+		// Any value is allowed.
+		s = AdditionalPropertiesAnyJsonItem{}
 	case internal.StringArray:
 		s = AdditionalPropertiesAnyJsonItem{
 			Type:  internal.StringRef(r.Value),
